@@ -90,9 +90,14 @@ def insertSorted {α} (le : α → α → Bool) (x : α) : List α → List α
   | [] => [x]
   | y :: ys => if le x y then x :: y :: ys else y :: insertSorted le x ys
 
-/-- Stable insertion sort. -/
-def isort {α} (le : α → α → Bool) (l : List α) : List α :=
-  l.foldr (fun x acc => insertSorted le x acc) []
+/-- Stable sort (core merge sort), used for canonical output. -/
+def isort {α} (le : α → α → Bool) (l : List α) : List α := l.mergeSort le
+
+/-- no two equal adjacent elements (on a sorted list: no duplicates) -/
+def noAdjacentDup {α} [BEq α] : List α → Bool
+  | [] => true
+  | [_] => true
+  | x :: y :: rest => x != y && noAdjacentDup (y :: rest)
 
 def natListLe : List Nat → List Nat → Bool
   | [], _ => true
